@@ -287,3 +287,16 @@ def correspond(ctx):
         "keys are non-NaN; Int keys in the model stand for any totally ordered key set (the heap only compares and copies keys)",
         "memory safety of the compiled code is observed by ASan/UBSan on the generated histories; the theorem no_oob is about the model's index d < Dn",
     ]
+
+
+def replay_case(ctx, body):
+    """python3 check.py replay <file>: the recorded history against the current tree and the model"""
+    binary, log = ctx.build_harness("c16_heap.cpp")
+    if not binary:
+        ctx.broken("harness-build", "harness c16_heap.cpp", "harness does not compile against /repo: " + log[-800:])
+        return
+    fs = dict(t.split("=", 1) for t in body["case"].split()[1:])
+    judge(ctx, binary, [(int(fs["cap"]), fs["ops"].split(","))], "replay")
+    ctx.cov["rule"] = "replay of one recorded history"
+    print("replayed:", body["case"][:200])
+    print("evidence/C16.json holds the observation; exit status 1 = the violation reproduces")
